@@ -177,6 +177,23 @@ class Judge:
     if opt == "ds" and e.get("type") == "IndexError" and case["layout"] != {"ty": "none"} and \
         _all_stats_1x1(case["layout"]):
       return self.ck.violation(f"ds|all_statistics_1x1|IndexError|{mode}", what, replay)
+    if opt == "ds" and e.get("type") == "UnboundLocalError" and "total_retries" in msg:
+      return self.ck.violation(f"inv_root|1x1|UnboundLocalError|{mode}", what, replay)
+    if opt == "ds" and c["ptype"] == "INPUT" and e.get("type") == "AssertionError" and \
+        "_preconds_for_grad" in (e.get("repo_frame") or ""):
+      return self.ck.violation(f"ds|INPUT|rank<=1|AssertionError|{mode}", what, replay)
+    if opt == "ds" and c["fd"] and not c["reuse"] and e.get("type") == "AssertionError":
+      return self.ck.violation(f"ds|fd|no_reuse|AssertionError|{mode}", what, replay)
+    if opt == "ds" and c["fd"] and case["tree"]["x64"] and e.get("type") == "TypeError" and \
+        "cond" in msg and "new_mi_pth_root" in (e.get("repo_frame") or ""):
+      return self.ck.violation(f"ds|fd|x64|cond_dtype_mismatch|{mode}", what, replay)
+    if res["phase"] == "scan" and e.get("type") == "TypeError" and "carry" in msg:
+      # jax refuses the optimizer state as a lax.scan carry: its layout is not a fixed point
+      if opt == "ds" and c["fd"] and c["avg"] and "avg_grad" in msg:
+        return self.ck.violation(f"ds|fd+average_grad|skipped_param|layout_change|{mode}", what, replay)
+      if opt == "ds" and "training_metrics" in msg and ".fd" in msg:
+        return self.ck.violation(f"ds|fd_metrics|zero_stat_param|layout_change|{mode}", what, replay)
+      return self.report(f"{opt}|{mode}|state_is_not_a_scan_carry", sig, what, replay)
     fn = (e.get("repo_frame") or "").split(":")[-1] or "outside_repo"
     return self.report(f"{opt}|{mode}|internal:{e.get('type')}@{res['phase']}:{fn}", sig, what, replay)
 
@@ -229,6 +246,14 @@ class Judge:
       if opt == "ds" and cl["clause"] in ("state_layout_changed", "scan_carry") and \
           cl.get("path", "").endswith(".training_metrics.fd"):
         ck.violation(f"ds|fd_metrics|zero_stat_param|layout_change|{mode}", what, {"job": job, "clause": cl})
+        continue
+      if opt == "ds" and cl["clause"] in ("state_layout_changed", "scan_carry") and c["fd"] and c["avg"] \
+          and ".avg_grad" in cl.get("path", ""):
+        ck.violation(f"ds|fd+average_grad|skipped_param|layout_change|{mode}", what, {"job": job, "clause": cl})
+        continue
+      if opt == "ds" and mode == "shard" and cl["clause"] == "sharded_declared" and \
+          cl.get("path", "").endswith(".d"):
+        ck.violation(f"ds|shard|declared_dtypes|{norm_path(cl['path'])}", what, {"job": job, "clause": cl})
         continue
       self.report(f"{opt}|{mode}|{cl['clause']}:{cl.get('path', '')}", sig, what, {"job": job, "clause": cl})
     if clean:
